@@ -57,6 +57,7 @@ Section Abstract.
   Notation enveloped := (Conn.enveloped fc).
   Notation seg_law := (Conn.seg_law sc).
   Notation calm := (Conn.calm fc).
+  Notation calm_modern := (Conn.calm_modern fc).
 
   Definition prepend (fs : list F) (x : conn * list F * outcome) : conn * list F * outcome :=
     match x with (st, fs2, o) => (st, fs ++ fs2, o) end.
@@ -96,6 +97,21 @@ Section Abstract.
     - unfold adopt. rewrite Hc. reflexivity.
   Qed.
 
+  (* frames that leave the state of an end in legacy layout alone leave that of an end in modern layout alone *)
+  Lemma calm_calm_modern r nf : calm r nf -> calm_modern r nf.
+  Proof. destruct r; cbn [Conn.calm Conn.calm_modern]; [intros [Hf _]; exact Hf|auto]. Qed.
+
+  (* ... in modern layout a frame that would have switched the layout (READY, AUTHENTICATE) is an ordinary frame *)
+  Lemma read_frame_calm_modern r (st : conn) ce f bs nf rest :
+    c_modern st = true -> frame_law ce (c_comp st) f bs nf -> calm_modern r nf ->
+    read_frame r st (bs ++ rest) = (st, [nf], RxOk, rest).
+  Proof.
+    intros Hm (_ & _ & Hdec & _) Hc. unfold Conn.read_frame. rewrite Hdec.
+    destruct r; cbn [Conn.calm_modern] in Hc.
+    - rewrite Hc. unfold maybe_switch. rewrite Hm. cbn [negb andb]. reflexivity.
+    - unfold adopt. rewrite Hc. reflexivity.
+  Qed.
+
   (* in general: what readFrame does with a law-abiding frame *)
   Lemma read_frame_law r (st : conn) ce f bs nf rest :
     frame_law ce (c_comp st) f bs nf ->
@@ -107,29 +123,33 @@ Section Abstract.
   Proof. intros (_ & _ & Hdec & _). unfold Conn.read_frame. rewrite Hdec. reflexivity. Qed.
 
   (* ---------------------------------------------------------------------------------------------- self-contained *)
+  Lemma sc_more_nonnil (p : list Z) : p <> [] -> sc_more (zlen p) = true.
+  Proof. intro Hne. unfold sc_more. apply Z.ltb_lt. destruct p; [contradiction|]. unfold zlen. cbn [length]. lia. Qed.
+
   Lemma read_sc_unfold k r (st : conn) p : p <> [] ->
     read_sc (S k) r st p =
     match read_frame r st p with
     | (st1, fs, RxOk, rest) => match read_sc k r st1 rest with (st2, fs2, o2) => (st2, fs ++ fs2, o2) end
     | (st1, fs, o, _) => (st1, fs, o)
     end.
-  Proof. destruct p; [contradiction|reflexivity]. Qed.
+  Proof. intro Hne. cbn [Conn.read_sc]. rewrite (sc_more_nonnil p Hne). reflexivity. Qed.
 
   Lemma read_sc_nil fuel r (st : conn) : read_sc fuel r st [] = (st, [], RxOk).
   Proof. destruct fuel; reflexivity. Qed.
 
   (* several whole envelopes in one payload: all delivered, in order *)
-  Lemma read_sc_delivers r ce (st : conn) fs bss nfs : enveloped ce (c_comp st) fs bss nfs -> Forall (calm r) nfs ->
+  Lemma read_sc_delivers r ce (st : conn) fs bss nfs : c_modern st = true ->
+    enveloped ce (c_comp st) fs bss nfs -> Forall (calm_modern r) nfs ->
     forall fuel, (length bss <= fuel)%nat -> read_sc fuel r st (concat bss) = (st, nfs, RxOk).
   Proof.
-    induction 1 as [|f bs nf fs bss nfs Hl Hrest IH]; intros Hcalm fuel Hf.
+    intro Hmod. induction 1 as [|f bs nf fs bss nfs Hl Hrest IH]; intros Hcalm fuel Hf.
     - cbn [concat]. apply read_sc_nil.
     - inversion Hcalm as [|? ? Hc1 Hc2]; subst. cbn [concat length] in *.
       destruct fuel as [|k]; [lia|].
       assert (Hne : bs ++ concat bss <> []).
       { destruct Hl as (_ & Hne & _). destruct bs; [contradiction|discriminate]. }
       rewrite read_sc_unfold by exact Hne.
-      rewrite (read_frame_calm r st ce f bs nf (concat bss) Hl Hc1).
+      rewrite (read_frame_calm_modern r st ce f bs nf (concat bss) Hmod Hl Hc1).
       rewrite IH by (try assumption; lia). reflexivity.
   Qed.
 
@@ -167,14 +187,14 @@ Section Abstract.
 
   (* the part that completes the envelope: the accumulator is reset and the reassembled frame is delivered *)
   Lemma add_multi_last r ce (st : conn) f e nf p :
-    frame_law ce (c_comp st) f e nf -> calm r nf ->
+    c_modern st = true -> frame_law ce (c_comp st) f e nf -> calm_modern r nf ->
     c_target st = known_target (zlen (c_acc st)) (zlen e) -> c_acc st ++ p = e ->
     add_multi r st p = (reset st, [nf], RxOk).
   Proof.
-    intros Hl Hc Htg Hcat. pose proof Hl as (_ & Hne & _ & (hb & body & h & He & Hhl & Hhd & Ht & _) & _).
+    intros Hmod Hl Hc Htg Hcat. pose proof Hl as (_ & Hne & _ & (hb & body & h & He & Hhl & Hhd & Ht & _) & _).
     assert (He0 : zlen e <> 0) by (intro Hz; apply Hne; apply zlen_zero_nil; exact Hz).
     assert (Hlen : fc_hlen fc <= zlen e) by (rewrite He, zlen_app, Hhl; pose proof (zlen_nonneg body); lia).
-    pose proof (read_frame_calm r (reset st) ce f e nf [] Hl Hc) as Hr. rewrite app_nil_r in Hr. unfold reset in Hr.
+    pose proof (read_frame_calm_modern r (reset st) ce f e nf [] Hmod Hl Hc) as Hr. rewrite app_nil_r in Hr. unfold reset in Hr.
     unfold Conn.add_multi, Conn.add_multi_go. rewrite Hcat.
     replace (fc_hlen fc <=? zlen e) with true by lia. rewrite andb_true_r.
     unfold known_target in Htg.
@@ -283,7 +303,7 @@ Section Abstract.
   (* the parts of ONE envelope, cut anywhere (inside the header as well), empty parts allowed anywhere:
      invariant = the accumulator holds a strict prefix a of e and the target is what a reveals *)
   Lemma parts_run r ce c (f : F) e nf : 0 < fc_hlen fc -> forall ps (st : conn) bss,
-    frame_law ce c f e nf -> calm r nf ->
+    frame_law ce c f e nf -> calm_modern r nf ->
     c_modern st = true -> c_comp st = c ->
     c_target st = known_target (zlen (c_acc st)) (zlen e) -> c_acc st ++ concat ps = e -> zlen (c_acc st) < zlen e ->
     seg_encoded sc c (map WPart ps) bss ->
@@ -305,7 +325,7 @@ Section Abstract.
         rewrite (rx_run_step _ r st (reset st) bs (concat bss' ++ rest) [nf] Hbne).
         * f_equal. apply (empty_parts_run r c ps (reset st) bss'); try assumption; reflexivity.
         * unfold Conn.rx_step. rewrite Hm. rewrite (read_segment_law r st false p bs _ ltac:(rewrite Hcomp; exact Hsl)).
-          rewrite (add_multi_last r ce st f e nf p Hl' Hc Htg Hfull). reflexivity.
+          rewrite (add_multi_last r ce st f e nf p Hm Hl' Hc Htg Hfull). reflexivity.
       + set (st1 := set_acc st (known_target (zlen (c_acc st ++ p)) (zlen e)) (c_acc st ++ p)).
         rewrite (rx_run_step _ r st st1 bs (concat bss' ++ rest) [] Hbne).
         * rewrite prepend_nil. rewrite (IH st1 bss' Hl Hc); try assumption; try reflexivity.
@@ -319,7 +339,7 @@ Section Abstract.
   Lemma modern_run r ce c envs ss :
     0 < fc_hlen fc -> segmentation envs ss ->
     forall fs nfs (st : conn) bss,
-    enveloped ce c fs envs nfs -> Forall (calm r) nfs ->
+    enveloped ce c fs envs nfs -> Forall (calm_modern r) nfs ->
     c_modern st = true -> c_comp st = c -> c_target st = 0 -> c_acc st = [] ->
     seg_encoded sc c ss bss ->
     forall k rest, rx_run (length ss + k) r st (concat bss ++ rest) = prepend nfs (rx_run k r st rest).
@@ -335,7 +355,7 @@ Section Abstract.
       rewrite (rx_run_step _ r st st bs (concat bss' ++ rest) nfs1 Hbne).
       + rewrite (IH fs2 nfs2 st bss') by (try assumption; reflexivity). rewrite prepend_app. reflexivity.
       + unfold Conn.rx_step. rewrite Hm. rewrite (read_segment_law r st true (concat es1) bs _ Hsl).
-        rewrite (read_sc_delivers r ce st fs1 es1 nfs1 E1 Hc1); [reflexivity|].
+        rewrite (read_sc_delivers r ce st fs1 es1 nfs1 Hm E1 Hc1); [reflexivity|].
         pose proof (concat_nonnil_length es1 (enveloped_nonnil _ _ _ _ _ E1)). lia.
     - inversion Henv as [|f e' nf fs' es' nfs' Hl Henv']; subst e' fs nfs es'.
       inversion Hcalm as [|x0 l0 Hc1 Hc2]; subst x0 l0.
@@ -361,7 +381,7 @@ Section Abstract.
      the same state.  (0 < fc_hlen: a header has at least one byte; it is 9.) *)
   Theorem modern_delivery r ce c fs envs nfs ss bss (st : conn) :
     0 < fc_hlen fc ->
-    enveloped ce c fs envs nfs -> Forall (calm r) nfs ->
+    enveloped ce c fs envs nfs -> Forall (calm_modern r) nfs ->
     segmentation envs ss -> seg_encoded sc c ss bss ->
     c_modern st = true -> c_comp st = c -> c_target st = 0 -> c_acc st = [] ->
     rx_all r st (concat bss) = (st, nfs, RxOk).
@@ -481,6 +501,7 @@ Section Abstract.
     apply (modern_delivery rr c c (map (fun f => fc_clear fc (tx_pre fc rs (mkConn true c 0 []) f)) fs) envs nfs (map WSelf envs) segbs rcv);
       try assumption.
     - clear -Hs. induction Hs; cbn [map]; constructor; assumption.
+    - eapply Forall_impl; [|exact Hcalm]. intros a Ha'. apply calm_calm_modern. exact Ha'.
     - apply one_per_segment. clear -Hs. induction Hs; constructor; assumption.
     - clear -Hs. induction Hs; cbn [map]; constructor; [|assumption]. cbn [ws_self ws_payload]. assumption.
   Qed.
@@ -789,7 +810,7 @@ Proof. induction 1 as [|rf rfs H _ IH]; cbn [map]; constructor; [apply raw_frame
 (* (2) for raw frames over the segment codec of model/Segment.v: closed - every law is discharged by FrameProofs /
    SegmentProofs; with LZ4 the payload compressor's contract (C08) is asked of every payload *)
 Theorem modern_delivery_raw r c lz4p rfs ss (st : conn compr) :
-  Forall raw_ok rfs -> Forall (calm raw_fc r) rfs ->
+  Forall raw_ok rfs -> Forall (calm_modern raw_fc r) rfs ->
   segmentation (map raw_env rfs) ss -> Forall (fun w => payload_ok lz4p c (ws_payload w)) ss ->
   c_modern st = true -> c_comp st = c -> c_target st = 0 -> c_acc st = [] ->
   exists wire, encode_wire (seg_sc lz4p) c ss = Ok wire /\
@@ -800,6 +821,32 @@ Proof.
   exists (concat bss). split; [apply seg_encoded_wire; exact Henc|].
   apply (modern_delivery raw_fc (seg_sc lz4p) r c c rfs (map raw_env rfs) rfs ss bss st); try assumption; [reflexivity|].
   apply enveloped_raw. exact Hok.
+Qed.
+
+(* (2') ONE self-contained segment: any number of whole envelopes, then an envelope that is a BARE HEADER (empty body:
+   OPTIONS, READY - the payload ends with its 9 bytes, or consists of nothing else when rfs = []): every envelope is
+   delivered, the bare header last.  The loop of readSelfContainedSegment runs while ANY byte is unread (sc_more); a loop
+   that stopped at "no more than a header's worth unread" would lose exactly this envelope. *)
+Theorem header_only_tail_delivered r c lz4p rfs rf (st : conn compr) :
+  Forall raw_ok (rfs ++ [rf]) -> Forall (calm_modern raw_fc r) (rfs ++ [rf]) -> olist (rf_Body rf) = [] ->
+  let p := concat (map raw_env rfs) ++ hdr_bytes (rf_Header rf) in
+  zlen p <= max_payload -> payload_ok lz4p c p ->
+  c_modern st = true -> c_comp st = c -> c_target st = 0 -> c_acc st = [] ->
+  zlen (hdr_bytes (rf_Header rf)) = 9 /\
+  exists wire, encode_wire (seg_sc lz4p) c [WSelf p] = Ok wire /\
+               rx_all raw_fc (seg_sc lz4p) r st wire = (st, rfs ++ [rf], RxOk).
+Proof.
+  intros Hok Hcalm Hbody p Hsz Hp Hm Hc Ht Ha.
+  assert (Hp' : p = concat (map raw_env (rfs ++ [rf]))).
+  { unfold p. rewrite map_app, concat_app. cbn [map concat].
+    change (raw_env rf) with (hdr_bytes (rf_Header rf) ++ olist (rf_Body rf)). rewrite Hbody, !app_nil_r. reflexivity. }
+  split.
+  - apply Forall_app in Hok. destruct Hok as [_ Hrf]. inversion Hrf as [|? ? (_ & Hv & _) _]; subst.
+    rewrite hdr_len. replace (Z.geb (h_Version (rf_Header rf)) 3) with true by lia. reflexivity.
+  - rewrite Hp' in *.
+    apply (modern_delivery_raw r c lz4p (rfs ++ [rf]) [WSelf (concat (map raw_env (rfs ++ [rf])))] st); try assumption.
+    + rewrite <- (app_nil_r (map raw_env (rfs ++ [rf]))) at 1. apply sg_self; [exact Hsz|constructor].
+    + constructor; [exact Hp|constructor].
 Qed.
 
 (* (1) for raw frames *)
@@ -843,7 +890,7 @@ Section FrameInstance.
     fc_switch ffc (cframe_normal f n) = fc_switch ffc f /\ fc_startup ffc (cframe_normal f n) = fc_startup ffc f /\
     fc_fatal ffc (cframe_normal f n) = fc_fatal ffc f.
   Proof.
-    intros (_ & _ & _ & _ & _ & (_ & _ & _ & Hm)).
+    intros (_ & _ & _ & _ & _ & _ & (_ & _ & _ & Hm)).
     cbn [fc_switch fc_startup fc_fatal ffc frame_fc cframe_normal f_Header f_Body with_body_length h_Version norm_body bd_Message].
     apply H_kind. exact Hm.
   Qed.
@@ -927,7 +974,7 @@ Section FrameInstance.
   (* (2) for the frames of model/Frame.v: every segmentation, under the per-message laws (H_rt, H_len: C01/C03), the
      kind obligation H_kind, and - with LZ4 - the payload compressor's contract on every payload *)
   Theorem modern_delivery_frames r c lz4p fs envs nfs ss (st : conn compr) :
-    envelopes_ok fs envs nfs -> Forall (calm ffc r) nfs ->
+    envelopes_ok fs envs nfs -> Forall (calm_modern ffc r) nfs ->
     segmentation envs ss -> Forall (fun w => payload_ok lz4p c (ws_payload w)) ss ->
     c_modern st = true -> c_comp st = c -> c_target st = 0 -> c_acc st = [] ->
     exists wire, encode_wire (seg_sc lz4p) c ss = Ok wire /\
@@ -1014,16 +1061,17 @@ Qed.
    (non-vacuity: the hypotheses of the theorems above are met by concrete frames; used by props/C15.v) *)
 Lemma raw_envelope_ok (v : Z) (resp : bool) (flags sid op : Z) (body : list Z) :
   In v [3; 4; 5; 65; 66] -> 0 <= flags < 256 -> -32768 <= sid < 32768 -> OpCode_IsValid op = true ->
-  (if resp then OpCode_IsResponse op else OpCode_IsRequest op) = true -> zlen body < 2147483648 - 9 ->
+  (if resp then OpCode_IsResponse op else OpCode_IsRequest op) = true -> dse_opcode_ok v op = true ->
+  zlen body < 2147483648 - 9 ->
   raw_ok (raw_envelope v resp flags sid op body).
 Proof.
-  intros Hv Hf Hs Hop Hdir Hb. pose proof (zlen_nonneg body).
+  intros Hv Hf Hs Hop Hdir Hdse Hb. pose proof (zlen_nonneg body).
   assert (Hv3 : 3 <= v) by (cbn [In] in Hv; lia).
   unfold raw_ok, raw_envelope. cbn [rf_Header rf_Body h_Version h_BodyLength].
   split; [|split; [exact Hv3|]].
   - unfold header_ok. cbn [h_Version h_Flags h_StreamId h_OpCode h_IsResponse h_BodyLength].
     split; [unfold supported, spec_versions, V2, V3, V4, V5, DSE1, DSE2; cbn [In] in *; tauto|].
-    split; [exact Hf|]. split; [replace (Z.geb v 3) with true by lia; exact Hs|]. split; [exact Hop|]. split; [exact Hdir|].
+    split; [exact Hf|]. split; [replace (Z.geb v 3) with true by lia; exact Hs|]. split; [exact Hop|]. split; [exact Hdir|]. split; [exact Hdse|].
     unfold in_i32. lia.
   - exists body. repeat split; [exact Hb].
 Qed.
@@ -1043,7 +1091,7 @@ Proof.
   exists (raw_env (fc_clear raw_fc (tx_pre raw_fc r st rf))), segb. split; [apply raw_frame_law; exact Hok|exact Hs].
 Qed.
 
-Ltac ex_raw_ok := apply raw_envelope_ok; [cbn [In]; tauto|lia|lia|reflexivity|reflexivity|vm_compute; reflexivity].
+Ltac ex_raw_ok := apply raw_envelope_ok; [cbn [In]; tauto|lia|lia|reflexivity|reflexivity|reflexivity|vm_compute; reflexivity].
 Ltac ex_bytes_ok := apply bytes_okb_ok; vm_compute; reflexivity.
 Ltac ex_forall tac := repeat (first [apply Forall_nil | apply Forall_cons; [tac|]]).
 
@@ -1121,6 +1169,73 @@ Proof.
   - ex_forall reflexivity.
   - exact ex5_segmentation.
   - unfold ex5_segments. cbn [map cut app]. ex_forall ltac:(split; [ex_bytes_ok|intro; discriminate]).
+Qed.
+
+(* (2') bare headers at the end of a self-contained segment, in every position, and alone.
+   Towards the server: QUERY + OPTIONS in one segment, then OPTIONS alone, then OPTIONS + OPTIONS + QUERY + OPTIONS. *)
+Definition ex5_o (sid : Z) := raw_envelope 5 false 0 sid OpCodeOptions [].
+Definition ex5t_frames := [ex5_q1; ex5_o 2; ex5_o 3; ex5_o 4; ex5_o 5; ex5_q3; ex5_o 6].
+Definition ex5t_segments : list wire_seg :=
+  [WSelf (raw_env ex5_q1 ++ raw_env (ex5_o 2)); WSelf (raw_env (ex5_o 3));
+   WSelf (raw_env (ex5_o 4) ++ raw_env (ex5_o 5) ++ raw_env ex5_q3 ++ raw_env (ex5_o 6))].
+Lemma ex5t_segmentation : segmentation (map raw_env ex5t_frames) ex5t_segments.
+Proof.
+  change (segmentation
+            ([raw_env ex5_q1; raw_env (ex5_o 2)] ++ ([raw_env (ex5_o 3)] ++
+             ([raw_env (ex5_o 4); raw_env (ex5_o 5); raw_env ex5_q3; raw_env (ex5_o 6)] ++ [])))
+            (WSelf (concat [raw_env ex5_q1; raw_env (ex5_o 2)]) :: WSelf (concat [raw_env (ex5_o 3)]) ::
+             WSelf (concat [raw_env (ex5_o 4); raw_env (ex5_o 5); raw_env ex5_q3; raw_env (ex5_o 6)]) :: [])).
+  repeat (apply sg_self; [vm_compute; discriminate|]). constructor.
+Qed.
+Lemma ex_header_only_server :
+  exists wire, encode_wire ex_sc CNone ex5t_segments = Ok wire /\
+               rx_all raw_fc ex_sc Server modern0 wire = (modern0, ex5t_frames, RxOk).
+Proof.
+  apply (modern_delivery_raw Server CNone never_worth ex5t_frames ex5t_segments modern0); try reflexivity.
+  - ex_forall ex_raw_ok.
+  - ex_forall reflexivity.
+  - exact ex5t_segmentation.
+  - unfold ex5t_segments. ex_forall ltac:(split; [ex_bytes_ok|intro; discriminate]).
+Qed.
+(* Towards a client in modern layout: RESULT + READY in one segment, then READY alone (READY answers REGISTER; for a client
+   that has already switched it is an ordinary frame: calm_modern) *)
+Definition ex5_ready (sid : Z) := raw_envelope 5 true 0 sid OpCodeReady [].
+Definition ex5_res (sid : Z) := raw_envelope 5 true 0 sid OpCodeResult (filler 7 12).
+Definition ex5c_frames := [ex5_res 1; ex5_ready 2; ex5_ready 3].
+Definition ex5c_segments : list wire_seg := [WSelf (raw_env (ex5_res 1) ++ raw_env (ex5_ready 2)); WSelf (raw_env (ex5_ready 3))].
+Lemma ex_header_only_client :
+  (exists wire, encode_wire ex_sc CNone ex5c_segments = Ok wire /\
+                rx_all raw_fc ex_sc Client modern0 wire = (modern0, ex5c_frames, RxOk)) /\
+  ~ calm raw_fc Client (ex5_ready 2).
+Proof.
+  split.
+  - apply (modern_delivery_raw Client CNone never_worth ex5c_frames ex5c_segments modern0); try reflexivity.
+    + ex_forall ex_raw_ok.
+    + ex_forall reflexivity.
+    + change (segmentation ([raw_env (ex5_res 1); raw_env (ex5_ready 2)] ++ ([raw_env (ex5_ready 3)] ++ []))
+                (WSelf (concat [raw_env (ex5_res 1); raw_env (ex5_ready 2)]) :: WSelf (concat [raw_env (ex5_ready 3)]) :: [])).
+      repeat (apply sg_self; [vm_compute; discriminate|]). constructor.
+    + unfold ex5c_segments. ex_forall ltac:(split; [ex_bytes_ok|intro; discriminate]).
+  - intros [_ H]. vm_compute in H. discriminate.
+Qed.
+(* the theorem about the bare header at the end is not vacuous: QUERY, QUERY, OPTIONS in one segment; OPTIONS alone *)
+Lemma ex_header_only_tail :
+  (exists wire, encode_wire ex_sc CNone [WSelf (concat (map raw_env [ex5_q1; ex5_q3]) ++ hdr_bytes (rf_Header (ex5_o 9)))] = Ok wire /\
+                rx_all raw_fc ex_sc Server modern0 wire = (modern0, [ex5_q1; ex5_q3; ex5_o 9], RxOk)) /\
+  (exists wire, encode_wire ex_sc CNone [WSelf (hdr_bytes (rf_Header (ex5_o 9)))] = Ok wire /\
+                rx_all raw_fc ex_sc Server modern0 wire = (modern0, [ex5_o 9], RxOk)).
+Proof.
+  split.
+  - apply (header_only_tail_delivered Server CNone never_worth [ex5_q1; ex5_q3] (ex5_o 9) modern0); try reflexivity.
+    + cbn [app]. ex_forall ex_raw_ok.
+    + cbn [app]. ex_forall reflexivity.
+    + vm_compute. discriminate.
+    + split; [ex_bytes_ok|intro; discriminate].
+  - apply (header_only_tail_delivered Server CNone never_worth [] (ex5_o 9) modern0); try reflexivity.
+    + cbn [app]. ex_forall ex_raw_ok.
+    + cbn [app]. ex_forall reflexivity.
+    + vm_compute. discriminate.
+    + split; [ex_bytes_ok|intro; discriminate].
 Qed.
 
 (* (3) version 5, modern layout: the server writes a RESULT whose caller had set the compression flag *)
@@ -1323,13 +1438,13 @@ Lemma envelope_of_valid f :
              (zlen (body_bytes (f_Header f) (f_Body f) mb) < 2147483648 - 9 -> envelope_ok the_msg_codec msg_ok f mb).
 Proof.
   intros Hok Hv Hnc. pose proof (frame_okb_valid f Hok) as Hval.
-  pose proof Hval as (Hs & _ & _ & _ & _ & (_ & _ & _ & Hm)).
+  pose proof Hval as (Hs & _ & _ & _ & _ & _ & (_ & _ & _ & Hm)).
   destruct (H_rt_concrete _ _ Hs Hm) as (mb & Hmb & _). exists mb. split; [exact Hmb|].
   intro Hsz. unfold envelope_ok. split; [exact Hval|]. split; [exact Hv|]. split; [exact Hnc|]. split; [exact Hmb|exact Hsz].
 Qed.
 
 Theorem modern_delivery_concrete r c lz4p lz4b snb fs envs nfs ss (st : conn compr) :
-  envelopes_ok the_msg_codec msg_ok norm_message fs envs nfs -> Forall (calm (cfc lz4b snb) r) nfs ->
+  envelopes_ok the_msg_codec msg_ok norm_message fs envs nfs -> Forall (calm_modern (cfc lz4b snb) r) nfs ->
   segmentation envs ss -> Forall (fun w => payload_ok lz4p c (ws_payload w)) ss ->
   c_modern st = true -> c_comp st = c -> c_target st = 0 -> c_acc st = [] ->
   exists wire, encode_wire (seg_sc lz4p) c ss = Ok wire /\
